@@ -55,7 +55,8 @@ LArg(shape, j) ==
     [] shape = "const2" -> IF j = 2 THEN O2(23, V(1), N(2)) ELSE O2(28, V(j - 1), N(0))
 
 \* numeric root operators
-NumOps == {"div", "ifc", "countn",       \* division by an expression, if-then-else with constant branches, count of numeric operands
+NumOps == {"plneg", "plpos",             \* piecewise-linear terms whose breakpoints all lie on one side of 0
+           "div", "ifc", "countn",       \* division by an expression, if-then-else with constant branches, count of numeric operands
            "add", "sub", "mul", "mulc", "neg", "abs", "min2", "max2", "min3", "max3", "if", "count",
            "numberofc", "numberofv", "pl", "divc", "sqr", "pow3", "sum3", "absdiff", "maxabs"}
 NumExprA(op, a, b, c, p, q, r) ==
@@ -77,6 +78,8 @@ NumExprA(op, a, b, c, p, q, r) ==
     [] op = "numberofc" -> ON(60, <<N(1), a, b, c>>)
     [] op = "numberofv" -> ON(60, <<a, b, c>>)
     [] op = "pl"   -> PL(<<-1, 1, 2>>, <<0, 1>>, V(0))
+    [] op = "plneg" -> PL(<<1, -2, 3>>, <<-3, -2>>, a)
+    [] op = "plpos" -> PL(<<2, -1, 1>>, <<1, 2>>, a)
     [] op = "divc" -> O2(3, a, N(2))
     [] op = "sqr"  -> O1(77, a)
     [] op = "pow3" -> O2(76, a, N(3))
